@@ -1,6 +1,13 @@
 """Single table of claimed checks; bin/mkmanifest renders MANIFEST.json from it."""
 
 CHECKS = {
+    "C14": dict(
+        level="exploration",
+        technique="TLA+ specification of every string/number built-in (CheckBuiltin over MSStr = string functions on character sequences and MSNum = exact integers / IEEE doubles incl. correctly rounded sqrt, decimal and radix parsing, float->int truncation, floor/ceil/round/ipart/fpart); TLA+ generator GenBuiltin enumerates method x boundary receivers/arguments; every call executed by the real binary with operands in variables; typed result (kind + exact value) judged by TLC",
+        text="Exhaustive over the method x boundary-set matrix (2k calls quick, more values thorough): value and declared kind must equal the specification's, and calls outside the domain must fail.",
+        note="ASCII receivers only; float pow/powf, float to_str, negative sqrt, negative split position, 0x-prefixed / exponent parse texts are unspecified and skipped; a panic counts as a failure here.",
+        design="5/C14",
+    ),
     "C06": dict(
         level="translation_validation",
         technique="TLA+ generator GenExpr (prefix-token derivations of expression trees over numeric literals; BFS + -simulate); TLA+ spec MSNum evaluates every tree exactly (CheckFold!Ev) and classifies ill-typed trees statically (KindOf); each tree is executed twice by the real binary - folded (compiler evaluates) and unfolded (interpreter evaluates, literals through variables) - and TLC (CheckFold) judges the three-way agreement of kind and exact value, and that the folded rendering is rejected at compile time exactly when evaluation must fail",
